@@ -245,7 +245,8 @@ impl<'s, I: Kind<'s>> Er<'s, I> for Rich<'s, I::Tok, I::Spn> {
         let d = <Self as Er<'s, I>>::desc(&self);
         Rich::custom(
             self.span().clone(),
-            format!("M{}[{:?}|{:?}|{:?}]", tag, d.found, d.expected, d.custom),
+            // `found` is left out: it is unspecified for a labelled user-supplied error
+            format!("M{}[{:?}|{:?}]", tag, d.expected, d.custom),
         )
     }
 }
